@@ -51,6 +51,46 @@ def _value_only_use(n):
     return False
 
 
+def _strings_of(ctx, f, e, depth):
+    """The literal strings an expression can take: a constant; a parameter (the literals its callers pass); a local assigned only
+    from such expressions; a conditional between them.  None when not determined."""
+    if depth > 3 or e is None:
+        return None
+    ok_, v_ = ctx.prog.try_const(e, f.mod)
+    if ok_:
+        return {v_} if isinstance(v_, str) else None
+    if isinstance(e, ast.IfExp):
+        a, b = _strings_of(ctx, f, e.body, depth + 1), _strings_of(ctx, f, e.orelse, depth + 1)
+        return None if a is None or b is None else a | b
+    if not isinstance(e, ast.Name):
+        return None
+    stores = [x for x in walk_no_nested_defs(f.node) if isinstance(x, ast.Name) and x.id == e.id and isinstance(x.ctx, ast.Store)]
+    if e.id in f.params and not stores:
+        ps = [q for q in f.params if q != "self"]
+        i = ps.index(e.id)
+        out = set()
+        sites = ctx.cg.callers_of(f)
+        for g, call in sites:
+            a = call.args[i] if i < len(call.args) else next((k.value for k in call.keywords if k.arg == e.id), None)
+            r = _strings_of(ctx, g, a, depth + 1)
+            if r is None:
+                return None
+            out |= r
+        return out or None
+    if stores and e.id not in f.params:
+        out = set()
+        for st in walk_no_nested_defs(f.node):
+            if isinstance(st, ast.Assign) and any(isinstance(t, ast.Name) and t.id == e.id for t in st.targets):
+                r = _strings_of(ctx, f, st.value, depth + 1)
+                if r is None:
+                    return None
+                out |= r
+            elif isinstance(st, (ast.For, ast.AugAssign, ast.With, ast.comprehension)) and any(isinstance(x, ast.Name) and x.id == e.id and isinstance(x.ctx, ast.Store) for x in ast.walk(getattr(st, "target", st) if not isinstance(st, ast.With) else st)):
+                return None
+        return out or None
+    return None
+
+
 def dynamic_census(ctx, chk, rule):
     bad = 0
     for f in ctx.prog.all_funcs(shared.SOLVER_MODULES):
@@ -60,6 +100,8 @@ def dynamic_census(ctx, chk, rule):
             if isinstance(n, ast.Call) and call_name(n) in ("getattr", "setattr") and len(n.args) >= 2:
                 from ..loader import possible_strings
                 names = possible_strings(ctx.prog, f, n.args[1])
+                if names is None:
+                    names = _strings_of(ctx, f, n.args[1], 0)
                 protected = {"rewards", "players", "transition_list", "final_states", "num_states", "next_states", "state_list"} | {shared.solver_names(ctx)["flag_field"]}
                 if names is not None and not (names & protected):
                     continue      # the attribute names are a known finite set of value fields (e.g. the three reward quantities of a node)
